@@ -469,7 +469,97 @@ def _int_timestamp(ctx) -> None:
            f"_EPOCH = `{nun(ep)}`; must be 1970-01-01T00:00 UTC", m.loc(ep))
 
 
+def _instance_tabulate(ctx) -> bool | None:
+    """INSTANCE.tabulated: DateTime.instance run by the checker's interpreter on aware standard-library datetimes - fixed offsets, a named
+    zoneinfo zone, and a nameless zone with one offset change (the dateutil kind: no .key, no .zone; `_safe_timezone`, interpreted from the
+    source, turns it into the fixed offset it reports for the value) - on both sides of the change; `create()` records what it is
+    handed.  Expected: the wall clock fields of the original and a zone that gives them the original's UTC offset (the same instant)."""
+    import datetime as _dt
+    from ..rules import minieval
+    from ..rules.minieval import ClassStub, Stub
+    dm, im = pmod("datetime"), pmod("__init__")
+    fn = dm.func("DateTime.instance")
+    H = _dt.timedelta(hours=1)
+
+    class Nameless(_dt.tzinfo):         # +01:00 until 2021-03-28 02:00 (wall), +02:00 from 03:00; +01:00 again from 2021-10-31 03:00 (second pass of 02:00-03:00)
+        def utcoffset(self, d):
+            if d is None:
+                return None
+            w = d.replace(tzinfo=None)
+            if _dt.datetime(2021, 3, 28, 3) <= w < _dt.datetime(2021, 10, 31, 2) or (_dt.datetime(2021, 10, 31, 2) <= w < _dt.datetime(2021, 10, 31, 3) and d.fold == 0):
+                return 2 * H
+            return H
+
+        def dst(self, d):
+            return None if d is None else self.utcoffset(d) - H
+
+        def tzname(self, d):
+            return None if d is None else "XST"
+    nz = Nameless()
+    D = _dt.datetime
+    values = [D(2021, 3, 28, 1, 30, tzinfo=nz), D(2021, 3, 28, 3, 30, tzinfo=nz), D(2021, 3, 28, 3, 0, tzinfo=nz), D(2021, 7, 1, 12, 0, 0, 250, tzinfo=nz), D(2021, 1, 1, 0, 0, tzinfo=nz),
+              D(2021, 10, 31, 2, 30, tzinfo=nz), D(2021, 10, 31, 2, 30, tzinfo=nz, fold=1), D(2021, 10, 31, 3, 30, tzinfo=nz),
+              D(2021, 6, 1, 12, 0, tzinfo=_dt.timezone(_dt.timedelta(hours=5, minutes=30))), D(1999, 12, 31, 23, 59, 59, 999999, tzinfo=_dt.timezone(_dt.timedelta(hours=-9, minutes=-30))),
+              D(2021, 6, 1, 12, 0, tzinfo=_dt.timezone.utc)]
+    zi = None
+    try:
+        import zoneinfo
+        zi = zoneinfo.ZoneInfo("Europe/Paris")
+        values += [D(2021, 3, 28, 3, 30, tzinfo=zi), D(2021, 10, 31, 2, 30, tzinfo=zi, fold=1), D(2021, 10, 31, 2, 30, tzinfo=zi), D(2021, 1, 15, 8, 0, tzinfo=zi)]
+    except Exception:       # noqa: BLE001
+        pass
+    bad, n = [], 0
+    try:
+        ifuncs = {st.name: st for st in im.top() if isinstance(st, ast.FunctionDef) and st.name != "timezone"}
+        iglob = {**minieval.module_consts(im), "Timezone": ClassStub(_new=None, _isa=lambda v: False), "FixedTimezone": ClassStub(_new=None, _isa=lambda v: False),
+                 "_datetime": minieval.std_module("datetime"), "UTC": _dt.timezone.utc, "Union": None, "cast": lambda t_, v: v,
+                 "local_timezone": lambda: (_ for _ in ()).throw(core.Unsupported("the local zone")),
+                 "timezone": lambda name: _dt.timezone(_dt.timedelta(seconds=name)) if isinstance(name, int) and not isinstance(name, bool) else
+                 (zi if zi is not None and name == "Europe/Paris" else (_ for _ in ()).throw(core.Unsupported(f"zone {name!r}")))}
+        safe = im.func("_safe_timezone")
+        funcs = {st.name: st for st in dm.top() if isinstance(st, ast.FunctionDef)}
+        meths = dm.methods_mro("DateTime")
+        for x in values:
+            made = []
+
+            def create(*a, **k):
+                names = ["year", "month", "day", "hour", "minute", "second", "microsecond", "tz", "fold"]
+                b = dict(zip(names, a))
+                b.update(k)
+                made.append(b)
+                return Stub(_created=True)
+            cls = ClassStub(_new=None, _isa=lambda v: False, create=create, _methods=lambda: meths)
+            glob = {**minieval.module_consts(dm), "UTC": _dt.timezone.utc, "datetime": minieval.std_module("datetime"),
+                    "pendulum": Stub(_safe_timezone=lambda *a, **k: minieval.call(safe, list(a), k, {**ifuncs, "$globals": dict(iglob)}))}
+            got = minieval.call(fn, [cls, x], {}, {**funcs, "$globals": glob})
+            n += 1
+            label = f"instance({x.isoformat()}" + (f" fold={x.fold}" if x.fold else "") + f" [{'a nameless tzinfo with an offset change' if x.tzinfo is nz else type(x.tzinfo).__name__}])"
+            if not getattr(got, "_created", False) or len(made) != 1:
+                raise core.Unsupported(f"{label} does not return one create(...) call")
+            b = made[0]
+            fields = tuple(b.get(k) for k in ("year", "month", "day", "hour", "minute", "second", "microsecond"))
+            want = (x.year, x.month, x.day, x.hour, x.minute, x.second, x.microsecond)
+            tz = b.get("tz")
+            if not isinstance(tz, _dt.tzinfo):
+                raise core.Unsupported(f"{label}: create() receives tz={tz!r}")
+            if None in fields:
+                raise core.Unsupported(f"{label}: create() receives {fields}")
+            off = tz.utcoffset(_dt.datetime(*fields, fold=b.get("fold", 1) or 0))
+            if fields != want or off != x.utcoffset():
+                sg = lambda o: ("-" if o < _dt.timedelta(0) else "+") + str(abs(o))        # noqa: E731
+                bad.append(f"{label}: built as {_dt.datetime(*fields).isoformat()} at UTC{sg(off)} (the original: {x.replace(tzinfo=None).isoformat()} at UTC{sg(x.utcoffset())})")
+    except (core.Unsupported, KeyError, TypeError, AttributeError, IndexError, RecursionError, ValueError, minieval.Raised) as e:
+        ctx.unverified("INSTANCE.tabulated", "DateTime.instance", f"outside the checker's interpreter: {type(e).__name__}: {str(e)[:160]}", dm.loc(fn))
+        return None
+    ctx.ob("INSTANCE.tabulated", "DateTime.instance", not bad, f"{n} aware standard-library values: " + (f"wrong: {bad[:3]}" if bad else
+           "the original's wall clock fields in a zone that gives them the original's UTC offset"), dm.loc(fn))
+    if not bad:
+        ctx.established(("AWARE-INSTANT",), "DateTime.instance", "INSTANCE.tabulated")
+    return not bad
+
+
 def _aware_instant(ctx) -> None:
+    _instance_tabulate(ctx)
     dm = pmod("datetime")
     inst = dm.func("DateTime.instance")
     dtp = core.params(inst)[0]
